@@ -178,6 +178,8 @@ impl<T: Clone> Clone for Range<T> {
 //@@ end
 // ASSUMED (external_body; iterator chain chunks/take/skip/zip/clone_from_slice is outside Verus; DESIGN C05: "assumed in Verus, checked
 // bounded by Kani"): Range::range. Documented precondition: that of Range::new ("Panics if start.0 > end.0 or start.1 > end.1").
+// Same requires / ensures as unit range (C05.range_wf / range_bounds / range_values, bundled in window_of). The source may be empty (then
+// `src.has` is false everywhere and the window is all default) -- consistent with the fix `if self.is_empty() { return other; }`.
 //@@ fn src/lib.rs Range::range props=C05 ret=r external_body
 //@@ sig
     requires
@@ -186,6 +188,10 @@ impl<T: Clone> Clone for Range<T> {
         start.0 <= end.0,
         //# C08.range_window_cols_ordered
         start.1 <= end.1,
+        // as in unit range: the u32 cell count of Range::new must not overflow (`(end.0 - start.0 + 1) * (end.1 - start.1 + 1)` is computed
+        // in u32: known finding of unit range on Range::new)
+        //# C08.range_window_cell_count_fits_u32
+        (end.0 - start.0 + 1) * (end.1 - start.1 + 1) <= u32::MAX,
     ensures
         window_of(r, *self, start, end),
 //@@ end
